@@ -122,4 +122,33 @@ def obsOfOuts (s : State) : List Out → List Obs
   | .verdict b v :: r => .verdict b v :: obsOfOuts s r
   | _ :: r => obsOfOuts s r
 
+/-! ### runs with the real worker (`query/worker.go`) over scripted peers
+
+Not scheduled deterministically, so there is no model comparison; the clause
+"a finished, cancelled or timed-out batch never blocks later batches or
+shutdown" is evaluated on what was observed: the verdict (or `HANG` when none
+arrived within the deadline the batch's options imply) of the first batch and
+of every later batch, submitted while every peer answers promptly; whether
+`Stop` returned; how many verdicts each result channel delivered in total. -/
+
+inductive RObs where
+  | batch (i : Nat) (verdict : Option Verdict) (fin n : Nat)   -- `none` = no verdict before the deadline
+  | stop (returned : Bool)
+  | final (counts : List (Nat × Nat))
+deriving Repr
+
+def realStep : RObs → List Fail
+  | .batch i none _ _ =>
+    if i ≥ 2 then [("later-batch-starved", s!"batch {i}, submitted after an earlier batch had ended and with every peer answering, got no verdict before its deadline")]
+    else [("batch-never-ended", s!"batch {i} got no verdict although its timeout / cancellation had passed")]
+  | .batch i (some v) fin n =>
+    if v == .res .ok && fin < n then
+      [("nil-without-all-ok", s!"batch {i} reported success with {fin} of {n} requests answered")] else []
+  | .stop false => [("shutdown-blocked", "Stop did not return")]
+  | .stop true => []
+  | .final counts => counts.filterMap (fun (b, c) =>
+      if c ≥ 2 then some ("double-verdict", s!"batch {b} received {c} verdicts")
+      else if c == 0 then some ("missing-verdict", s!"batch {b} never received a verdict although the dispatcher was stopped")
+      else none)
+
 end Neutrino.Disp
